@@ -43,6 +43,10 @@ def import_goodwe(fresh: bool = False):
     src = os.path.dirname(os.path.abspath(goodwe.__file__))
     if not src.startswith(os.path.abspath(REPO)):
         raise HarnessError("goodwe imported from %s, expected under %s" % (src, REPO))
+    if not fresh:
+        from . import tables
+        if tables._PRISTINE is None:
+            tables.snapshot_definitions()
     return goodwe
 
 
